@@ -192,6 +192,100 @@ func freshBody(ts []reflect.Type, n uint32) func() string {
 	}
 }
 
+// ---- run-time type lookups with never-seen types (writeInterface, encbuf.encode, Stream.Decode)
+
+// leafType: a fresh two-field struct type {K<serial> uint16; S string}.
+func leafType() reflect.Type {
+	typeSerial++
+	return reflect.StructOf([]reflect.StructField{
+		{Name: fmt.Sprintf("K%d", typeSerial), Type: reflect.TypeOf(uint16(0))},
+		{Name: "S", Type: reflect.TypeOf("")},
+	})
+}
+
+// holderType: a fresh struct type with an interface{} field {H<serial> uint8; X interface{}}.
+func holderType() reflect.Type {
+	typeSerial++
+	return reflect.StructOf([]reflect.StructField{
+		{Name: fmt.Sprintf("H%d", typeSerial), Type: reflect.TypeOf(uint8(0))},
+		{Name: "X", Type: reflect.TypeOf((*interface{})(nil)).Elem()},
+	})
+}
+
+func leafVal(t reflect.Type, k uint16, s string) reflect.Value {
+	v := reflect.New(t).Elem()
+	v.Field(0).SetUint(uint64(k))
+	v.Field(1).SetString(s)
+	return v
+}
+
+// encAny: encode v and decode the bytes back into interface{} (type names never rendered).
+func encAny(v interface{}) string {
+	b, err := rlp.EncodeToBytes(v)
+	if err != nil {
+		return "encode error"
+	}
+	var back interface{}
+	derr := rlp.DecodeBytes(b, &back)
+	return fmt.Sprintf("enc=%x back=%x,%v", b, back, derr != nil)
+}
+
+// decFresh: decode into a fresh destination of type t (Stream.Decode's run-time lookup).
+func decFresh(in []byte, t reflect.Type) string {
+	p := reflect.New(t)
+	if err := rlp.DecodeBytes(in, p.Interface()); err != nil {
+		return fmt.Sprintf("%x -> error", in)
+	}
+	return fmt.Sprintf("%x -> %v", in, p.Elem().Interface())
+}
+
+// elemBody: []interface{}{v} with v of type t.
+func elemBody(t reflect.Type, k uint16) func() string {
+	return func() string {
+		return encAny([]interface{}{leafVal(t, k, "ab").Interface()})
+	}
+}
+
+// fieldNestedBody: a (fresh) struct with an interface{} field holding a fresh-typed value,
+// and the nested form []interface{}{[]interface{}{v}}.
+func fieldNestedBody(holder, t reflect.Type, k uint16) func() string {
+	return func() string {
+		h := reflect.New(holder).Elem()
+		h.Field(0).SetUint(7)
+		h.Field(1).Set(leafVal(t, k, "x"))
+		b, err := rlp.EncodeToBytes(h.Interface())
+		return fmt.Sprintf("holder=%x,%v", b, err != nil) + " | " + enc([]interface{}{[]interface{}{leafVal(t, k+1, "").Interface()}})
+	}
+}
+
+// ptrArraySliceBody: pointer to a fresh type, [2]T (reflect.ArrayOf) and []T (reflect.SliceOf) inside interfaces.
+func ptrArraySliceBody(t reflect.Type, k uint16) func() string {
+	return func() string {
+		p := reflect.New(t)
+		p.Elem().Field(0).SetUint(uint64(k))
+		arr := reflect.New(reflect.ArrayOf(2, t)).Elem()
+		arr.Index(1).Set(leafVal(t, k, "r"))
+		sl := reflect.MakeSlice(reflect.SliceOf(t), 1, 1)
+		sl.Index(0).Set(leafVal(t, 0x8000, "s"))
+		return enc([]interface{}{p.Interface(), arr.Interface()}) + " | " + enc([]interface{}{sl.Interface()})
+	}
+}
+
+// decodeBody: decode into interface{} and into a fresh struct type.
+func decodeBody(t reflect.Type) func() string {
+	return func() string {
+		var any interface{}
+		return decodeInto([]byte{0xc5, 0x82, 0x01, 0x00, 0xc1, 0x05}, &any) + " | " + decFresh([]byte{0xc4, 0x82, 0x12, 0x34, 0x61}, t)
+	}
+}
+
+// encodeTwoBody: []interface{}{value of t1, value of t2}.
+func encodeTwoBody(t1, t2 reflect.Type) func() string {
+	return func() string {
+		return encAny([]interface{}{leafVal(t1, 0x1234, "a").Interface(), leafVal(t2, 1, "zz").Interface()})
+	}
+}
+
 func main() {
 	conc.Main([]conc.Scenario{
 		{Name: "struct||same-struct", Mk: func() []func() string {
@@ -206,6 +300,21 @@ func main() {
 		{Name: "first-use-of-type||same-and-another-type", Mk: func() []func() string {
 			t1, t2 := freshType(), freshType()
 			return []func() string{freshBody([]reflect.Type{t1}, 7), freshBody([]reflect.Type{t1, t2}, 258)}
+		}},
+		{Name: "iface-elem-fresh-type||same-fresh-type", Mk: func() []func() string {
+			t := leafType()
+			return []func() string{elemBody(t, 0x0102), elemBody(t, 0x0102)}
+		}},
+		{Name: "iface-field+nested||ptr+array+slice-other-fresh-type", Mk: func() []func() string {
+			return []func() string{fieldNestedBody(holderType(), leafType(), 0x7f), ptrArraySliceBody(leafType(), 0x80)}
+		}},
+		{Name: "decode-iface+fresh-struct||encode-fresh-in-iface", Mk: func() []func() string {
+			t1, t2 := leafType(), leafType()
+			return []func() string{decodeBody(t1), encodeTwoBody(t1, t2)}
+		}},
+		{Name: "encode-fresh-in-iface||decode-iface+fresh-struct", Mk: func() []func() string {
+			t1, t2 := leafType(), leafType()
+			return []func() string{encodeTwoBody(t1, t2), decodeBody(t1)}
 		}},
 	})
 }
